@@ -142,6 +142,20 @@ CHECKS["C20"] = dict(
          "registries are classified as the known finding. Level 'other': reclamation itself is measured by the bounded census driver.",
     note="Trusted: CPython's collector, rustworkx holds payloads strongly, the classification table of the roots (each safe entry states why).",
 )
+CHECKS["C17"] = dict(
+    category="other",
+    technique="contract-based deductive verification: complete case analysis of the WrappedField predicates over the annotation grammar (real ast, assumed typing contracts), per-element step lemmas of diagram construction under the loop rule with an abstract graph, frame obligations on every read-only diagram operation (effect log)",
+    text="(A) every WrappedField predicate is executed on every annotation of the grammar b|E|C|Optional[..]|List/Set/Sequence[..]|Type[C] with opaque "
+         "leaf classes and must agree with the table the annotation states; resolved_type's NameError path with 0..2 unresolved names. "
+         "(B) add_node, __post_init__, _create_inheritance_relations, _create_association_relations, WrappedClass.fields, discover: for an arbitrary "
+         "element of each loop over an ABSTRACT graph / class map the logged writes are exactly the node / edge the statement prescribes, none otherwise, "
+         "no loop is left early. (C) 18 read-only operations incl. to_subdiagram_without_inherited_associations and the rendering entry points write "
+         "nothing into the diagram, its graph, its class map or the objects they hold (checked at every loop cut and at return). "
+         "Level 'other': field lists are enumerated to length 3 and the composition 'per-element effects => exactly these edges' is argued; "
+         "bounded stand-in: generated models (1-5 classes, 2 modules, forward/self/mutual references, inheritance, Roles) vs the generator's own description.",
+    note="Assumed: typing get_type_hints/get_origin/get_args contracts, rustworkx mutator/reader split and copy(), copy.copy, dataclasses.fields; "
+         "rendering cannot run natively here (installed rustworkx_utils is incompatible), its frame is decided on the real body with RWXNode abstracted.",
+)
 NOT_APPLICABLE = {
     "C05": "decided by SQLAlchemy/SQLite semantics acting on generated code; no krrood function body carries it, so no contract within reach can express it (DESIGN.md §4)",
 }
